@@ -6,6 +6,7 @@
 //@harness flp_query_root_guard_c4 | complete | same, gadget called 4 times (wire polynomial length 8)
 //@harness flp_query_root_guard_c8 | complete | same, gadget called 8 times (wire polynomial length 16)
 //@harness flp_query_len_guards | complete | Flp::query: wrong input / proof / query-randomness / joint-randomness length => Err(Query) before any indexing (lengths symbolic 0..3 each)
+//@harness flp_prove_len_guards | complete | Flp::prove (real provided method): wrong input / prover-randomness / joint-randomness length => Err(Prove) before the circuit's gadgets are even instantiated (lengths symbolic 0..3 each)
 //@harness flp_decide_guards | complete | Flp::decide (real provided method): wrong verifier length => Err; verifier[0] != 0 => Ok(false); gadget check mismatch => Ok(false); else Ok(true); all indices in range
 // R5: the real provided methods of trait Flp are instantiated with a harness-defined circuit `GType<CALLS>`
 // whose single gadget reports `calls() == CALLS`.  The third call of `gadget()` inside `query` is the point
@@ -22,6 +23,7 @@ mod verif_c05_flp {
     static mut IS_ROOT: bool = false;       // ghost: r^wire_poly_len(calls) == 1
     static mut STOP_AFTER_GUARD: bool = false;
     static mut STOP_BEFORE_GUARD: bool = false;   // ghost: the lengths handed to query are wrong
+    static mut STOP_AT_FIRST_GADGET: bool = false;   // ghost: the lengths handed to prove are wrong
     static mut EVAL_RESULT: u64 = 0;
 
     #[derive(Debug)]
@@ -41,6 +43,11 @@ mod verif_c05_flp {
         fn gadget(&self) -> Vec<Box<dyn Gadget<Field64>>> {
             unsafe {
                 GADGET_CALLS += 1;
+                if STOP_AT_FIRST_GADGET {
+                    // Flp::prove instantiates the gadgets only after its three length checks
+                    assert!(false, "prove proceeds past its length checks with a wrong length");
+                    kani::assume(false);
+                }
                 if STOP_BEFORE_GUARD && GADGET_CALLS == 2 {
                     // the guard loop of Flp::query is entered only after all four length checks
                     assert!(false, "query proceeds past its length checks with a wrong length");
@@ -115,6 +122,25 @@ mod verif_c05_flp {
         // rejected before the root-of-unity loop ever asks for the gadgets a second time
         assert!(unsafe { GADGET_CALLS } <= 1);
         kani::cover!(li == 1 && lp == 4 && lq == 1 && lj != jr);
+        forget(res);
+    }
+
+    #[kani::proof]
+    #[kani::unwind(6)]
+    #[kani::stub(alloc::fmt::format, crate::verif_common::format_stub)]
+    fn flp_prove_len_guards() {
+        let jr: usize = kani::any();
+        kani::assume(jr <= 1);
+        let typ = GType::<1> { jr };
+        unsafe { STOP_AT_FIRST_GADGET = true; STOP_AFTER_GUARD = false; STOP_BEFORE_GUARD = false; GADGET_CALLS = 0; }
+        let buf = [Field64::zero(); 4];
+        let (li, lp, lj): (usize, usize, usize) = (kani::any(), kani::any(), kani::any());
+        kani::assume(li <= 3 && lp <= 3 && lj <= 3);
+        kani::assume(!(li == 1 && lp == 1 && lj == jr));
+        let res = typ.prove(&buf[..li], &buf[..lp], &buf[..lj]);
+        assert!(matches!(res, Err(FlpError::Prove(_))));
+        kani::cover!(li == 1 && lp == 1 && lj != jr);
+        unsafe { STOP_AT_FIRST_GADGET = false; }
         forget(res);
     }
 
